@@ -1,24 +1,26 @@
 (* C09 — property theorems (statements only; proofs live in C09_Proofs.v).
-   All of them are about the model with fx = fy = true, i.e. the tree with the repairs
-   build/fixes/C09_clamp.diff and build/fixes/C09_reclamp_on_schema_update.diff; C09_Unrepaired.v
-   refutes them for the trees without them.
+   All of them are about the model with fx = fy = fz = true, i.e. the tree with the repairs
+   build/fixes/C09_clamp.diff, build/fixes/C09_reclamp_on_schema_update.diff and 06780c0 (type change);
+   C09_Unrepaired.v refutes them for the trees without them.
    Quantification: every valid schema, every limiter mode / client-set state, every initial strategy
    and EVERY event list [ops] — server quotas with arbitrary integers, of any type and strategy (also
    the same answer repeated), accept/reject/error/too-old count replies with arbitrary limits, request
-   times (stale, reordered) and meter readings, heartbeats, elapsed time, strategy changes, schema
-   updates to arbitrary valid limits of the same type ([evs_ok]: the API server validates them), the
-   Enable/Sync preemption point.  "global limit" is always the one CURRENTLY configured: [scfg s]. *)
+   times (stale, reordered) and meter readings, answers carrying both members, heartbeats and leader
+   changes, elapsed time (ms), schema updates to another strategy, another TYPE and arbitrary valid limits
+   ([evs_ok]: the API server validates them), deletion and re-creation of the schema name, the
+   Enable/Sync preemption point.  "global limit" and "type" are always the ones CURRENTLY configured: [scfg s]. *)
 From KG Require Import Prelude C09_Model C09_Spec C09_Proofs.
 Open Scope Z_scope.
 
-Definition evs_ok (st : static) (ops : list ev) : Prop := Forall (ev_ok (ck (cfg st))) ops.
-Definition reach (st : static) (str0 : strategy) (ops : list ev) : state := run true true st (init (cfg st) str0) ops.
+Definition evs_ok (ops : list ev) : Prop := Forall ev_ok ops.
+Definition reach (st : static) (str0 : strategy) (ops : list ev) : state := run true true true st (init (cfg st) str0) ops.
 
 (* max-in-flight: the limiter a request meets has 0 <= size <= configured global max, and no more
    than global back-to-back admissions are observed; the remote limiter is bounded even while
    it is not selected *)
-Theorem C09_size_le_global : forall st str0 ops, valid_cfg (cfg st) -> evs_ok st ops -> ck (cfg st) = KMI ->
+Theorem C09_size_le_global : forall st str0 ops, valid_cfg (cfg st) -> evs_ok ops ->
   let s := reach st str0 ops in
+  present s = true -> ck (scfg s) = KMI ->
   (exists n, o_lim (observe true st s) = Some (LMI n) /\ 0 <= n <= g1 (scfg s)
              /\ o_adm (observe true st s) <= g1 (scfg s))
   /\ (forall l, remote_lim s = Some l -> exists n, l = LMI n /\ 0 <= n <= g1 (scfg s)).
@@ -26,8 +28,9 @@ Proof. exact size_le_global. Qed.
 Print Assumptions C09_size_le_global.
 
 (* token bucket: qps <= global qps AND burst <= global burst, same scope *)
-Theorem C09_tokenbucket_le_global : forall st str0 ops, valid_cfg (cfg st) -> evs_ok st ops -> ck (cfg st) = KTB ->
+Theorem C09_tokenbucket_le_global : forall st str0 ops, valid_cfg (cfg st) -> evs_ok ops ->
   let s := reach st str0 ops in
+  present s = true -> ck (scfg s) = KTB ->
   (exists q b, o_lim (observe true st s) = Some (LTB q b) /\ 0 <= q <= g1 (scfg s) /\ 0 <= b <= g2 (scfg s))
   /\ (forall l, remote_lim s = Some l ->
         exists q b, l = LTB q b /\ 0 <= q <= g1 (scfg s) /\ 0 <= b <= g2 (scfg s)).
@@ -35,13 +38,14 @@ Proof. exact tb_le_global. Qed.
 Print Assumptions C09_tokenbucket_le_global.
 
 (* a schema update takes effect at once — there is no window until the next answer of the limiter
-   server: right after ANY update to valid limits, the limiter a request meets and the remote limiter
-   (selected or not, available or not) are within the new limits *)
-Theorem C09_schema_update_bounds : forall st str0 ops a b g h, valid_cfg (cfg st) -> evs_ok st ops ->
-  let c' := {| ck := ck (cfg st); l1 := a; l2 := b; g1 := g; g2 := h |} in
+   server: right after ANY update (other limits, another strategy, another TYPE, the name added again) the
+   limiter a request meets and the remote limiter (selected or not, available or not) are of the new type
+   and within the new limits *)
+Theorem C09_schema_update_bounds : forall st str0 ops k x a b g h, valid_cfg (cfg st) -> evs_ok ops ->
+  let c' := {| ck := k; l1 := a; l2 := b; g1 := g; g2 := h |} in
   valid_cfg c' ->
-  let s' := reach st str0 (ops ++ [ESchema a b g h]) in
-  scfg s' = c' /\
+  let s' := reach st str0 (ops ++ [ESchema k x a b g h]) in
+  present s' = true /\ scfg s' = c' /\ sstr s' = x /\
   (exists l, o_lim (observe true st s') = Some l /\ lim_bounded c' l = true) /\
   (forall l, remote_lim s' = Some l -> lim_bounded c' l = true).
 Proof. exact schema_update_bounds. Qed.
@@ -49,28 +53,50 @@ Print Assumptions C09_schema_update_bounds.
 
 (* mode not remote, strategy not global, client set nil or server unknown, server not ready, or no
    server quota synced yet  ==>  the LOCAL limiter with exactly the local limit (never the exempt default) *)
-Theorem C09_fallback : forall st str0 ops, valid_cfg (cfg st) -> evs_ok st ops ->
+Theorem C09_fallback : forall st str0 ops, valid_cfg (cfg st) -> evs_ok ops ->
   let s := reach st str0 ops in
+  present s = true ->
   (md st <> MRemote \/ enable_global (sstr s) = false \/ cs st <> CSOk \/ hready s = false \/ has_inner s = false) ->
   o_sel (observe true st s) = SelLocal /\ o_lim (observe true st s) = Some (local_spec (scfg s)).
 Proof. exact fallback. Qed.
 Print Assumptions C09_fallback.
 
-(* a server whose heartbeats fail for at least 5 s is not ready, hence the local limit is enforced *)
-Theorem C09_fallback_heartbeat : forall st str0 ops sec, valid_cfg (cfg st) -> evs_ok st ops -> 5 <= sec ->
-  let s := reach st str0 (ops ++ [EHb false; EElapse sec; EHb false]) in
-  is_ready st s = false /\ o_sel (observe true st s) = SelLocal
-  /\ o_lim (observe true st s) = Some (local_spec (scfg s)).
+(* the exempt default is met exactly while the schema name is deleted — never for a known schema *)
+Theorem C09_default_iff_deleted : forall st str0 ops, valid_cfg (cfg st) -> evs_ok ops ->
+  let s := reach st str0 ops in
+  (o_sel (observe true st s) = SelDefault <-> present s = false).
+Proof. exact default_iff_absent. Qed.
+Print Assumptions C09_default_iff_deleted.
+
+(* a server whose heartbeats fail for at least 5 s (5000 ms) is not ready, hence the local limit is enforced *)
+Theorem C09_fallback_heartbeat : forall st str0 ops ms, valid_cfg (cfg st) -> evs_ok ops -> 5000 <= ms ->
+  let s := reach st str0 (ops ++ [EHb false; EElapse ms; EHb false]) in
+  is_ready st s = false /\
+  (present s = true -> o_sel (observe true st s) = SelLocal /\ o_lim (observe true st s) = Some (local_spec (scfg s))).
 Proof. exact heartbeat_fallback. Qed.
 Print Assumptions C09_fallback_heartbeat.
 
+(* the hysteresis boundary from below: a ready server whose heartbeats fail for less than 5 s stays ready;
+   a good heartbeat or a leader change of the shard makes the server ready at once *)
+Theorem C09_hysteresis : forall st str0 ops ms, valid_cfg (cfg st) -> evs_ok ops -> 0 <= ms < 5000 ->
+  let s0 := reach st str0 ops in
+  hlast s0 = true -> hready s0 = true ->
+  hready (reach st str0 (ops ++ [EHb false; EElapse ms; EHb false])) = true.
+Proof. exact heartbeat_hysteresis. Qed.
+Print Assumptions C09_hysteresis.
+
+Theorem C09_ready_again : forall st str0 ops e, valid_cfg (cfg st) -> evs_ok ops -> e = EHb true \/ e = ELeader ->
+  hready (reach st str0 (ops ++ [e])) = true.
+Proof. exact heartbeat_ready. Qed.
+Print Assumptions C09_ready_again.
+
 (* global-count error reply (server failing): max(observed, local) within the global limit, never below local *)
-Theorem C09_failing_bounds : forall st str0 ops mx rate rt w i, valid_cfg (cfg st) -> evs_ok st ops ->
+Theorem C09_failing_bounds : forall st str0 ops mx rate rt w i, valid_cfg (cfg st) -> evs_ok ops ->
   let s := reach st str0 ops in let c := scfg s in
   rem s = Some w -> rin w = Some i -> iw i <> WEmpty -> iun i = false ->
   (0 <? rt) && (rt <=? ilast i) = false ->
   rcfg w = Some {| idet := global_detail c; istr := SCount |} ->
-  exists i', rem (step true true st s (ECount (RErr mx rate) rt)) = Some {| rin := Some i'; rcfg := rcfg w |} /\
+  exists i', rem (step true true true st s (ECount (RErr mx rate) rt)) = Some {| rin := Some i'; rcfg := rcfg w |} /\
              iun i' = true /\
              match ck c with
              | KMI => exists n, il i' = LMI n /\ l1 c <= n <= g1 c
@@ -81,27 +107,28 @@ Print Assumptions C09_failing_bounds.
 
 (* recovery, global-allocate: with the server ready, an answered quota of the schema's type is in force,
    as answered within [0, global] *)
-Theorem C09_recovery_allocate : forall st str0 ops it l, valid_cfg (cfg st) -> evs_ok st ops ->
+Theorem C09_recovery_allocate : forall st str0 ops it l, valid_cfg (cfg st) -> evs_ok ops ->
   let s := reach st str0 ops in let c := scfg s in
+  present s = true ->
   md st = MRemote -> cs st = CSOk -> hready s = true -> enable_global (sstr s) = true ->
   istr it <> SCount -> granted c (idet it) = Some l ->
-  let s' := step true true st s (EQuota it) in
+  let s' := step true true true st s (EQuota it) in
   o_sel (observe true st s') = SelRemote /\ o_lim (observe true st s') = Some l /\ remote_lim s' = Some l.
 Proof. exact recovery_allocate. Qed.
 Print Assumptions C09_recovery_allocate.
 
 (* recovery, global-count: an accepted reply that is not stale ends the unavailable state and its limit
    (raised to the burst reserve, bounded by the granted maximum) is in force *)
-Theorem C09_recovery_count : forall st str0 ops limit rt w i it, valid_cfg (cfg st) -> evs_ok st ops ->
+Theorem C09_recovery_count : forall st str0 ops limit rt w i it, valid_cfg (cfg st) -> evs_ok ops ->
   let s := reach st str0 ops in
   rem s = Some w -> rin w = Some i -> iw i <> WEmpty -> rcfg w = Some it ->
   (0 <? rt) && (rt <=? ilast i) = false ->
-  let s' := step true true st s (ECount (ROk true limit) rt) in
+  let s' := step true true true st s (ECount (ROk true limit) rt) in
   exists i', rem s' = Some {| rin := Some i'; rcfg := Some it |} /\ iun i' = false /\
              match idet it with
              | DMI m => il i' = LMI (zmin (zmax limit (reserve_of true m)) m)
              | DTB q b => il i' = LTB q b
-             | DNone => False
+             | _ => False
              end /\
              (md st = MRemote -> cs st = CSOk -> hready s = true -> enable_global (sstr s) = true ->
               o_sel (observe true st s') = SelRemote /\ o_lim (observe true st s') = Some (il i')).
@@ -110,8 +137,8 @@ Print Assumptions C09_recovery_count.
 
 (* every clause of the executable specification (bound, fallback, inforce, failing, recovery, nopanic)
    holds at every step of every history *)
-Theorem C09_history : forall st str0 ops, valid_cfg (cfg st) -> evs_ok st ops ->
-  case_ok st str0 (observe true st (init (cfg st) str0)) (trace true true st (init (cfg st) str0) ops) = all_true.
+Theorem C09_history : forall st str0 ops, valid_cfg (cfg st) -> evs_ok ops ->
+  case_ok st str0 (observe true st (init (cfg st) str0)) (trace true true true st (init (cfg st) str0) ops) = all_true.
 Proof. exact case_holds. Qed.
 Print Assumptions C09_history.
 
@@ -127,8 +154,8 @@ Proof. unfold valid_cfg, two31. simpl. lia. Qed.
 (* negative, oversized, wrong-type answers; lost readiness; recovery *)
 Example C09_size_le_global_nonvacuous :
   map (fun p => (o_sel (snd p), o_lim (snd p)))
-      (trace true true ex_mi (init (cfg ex_mi) SAlloc)
-         [EHb true; q_mi (-1); q_mi 50; q_tb 7 9; q_mi 7; EHb false; EElapse 5; EHb false; EHb true; q_mi 30])
+      (trace true true true ex_mi (init (cfg ex_mi) SAlloc)
+         [EHb true; q_mi (-1); q_mi 50; q_tb 7 9; q_mi 7; EHb false; EElapse 5000; EHb false; EHb true; q_mi 30])
   = [(SelLocal, Some (LMI 5)); (SelRemote, Some (LMI 0)); (SelRemote, Some (LMI 20)); (SelRemote, Some (LMI 20));
      (SelRemote, Some (LMI 7)); (SelRemote, Some (LMI 7)); (SelRemote, Some (LMI 7)); (SelLocal, Some (LMI 5));
      (SelRemote, Some (LMI 7)); (SelRemote, Some (LMI 20))].
@@ -136,7 +163,7 @@ Proof. vm_compute. reflexivity. Qed.
 
 Example C09_tokenbucket_le_global_nonvacuous :
   map (fun p => o_lim (snd p))
-      (trace true true ex_tb (init (cfg ex_tb) SCount)
+      (trace true true true ex_tb (init (cfg ex_tb) SCount)
          [EHb true; ECfgSync; ECount (RErr 0 5000) 1; ECount (ROk true 3) 2; EStrategy SAlloc; q_tb 7 900; q_tb (-8) (-1)])
   = [Some (LTB 5 10); Some (LTB 100 10); Some (LTB 100 10); Some (LTB 100 10); Some (LTB 100 10);
      Some (LTB 7 10); Some (LTB 0 0)].
@@ -145,7 +172,7 @@ Proof. vm_compute. reflexivity. Qed.
 (* global count: reserve, accept, stale reply dropped, reject above global, error with a meter reading above global, recovery *)
 Example C09_count_nonvacuous :
   map (fun p => (o_lim (snd p), option_map r_unavail (o_rem (snd p))))
-      (trace true true ex_mi (init (cfg ex_mi) SCount)
+      (trace true true true ex_mi (init (cfg ex_mi) SCount)
          [EHb true; ECfgSync; ECount (ROk true 12) 5; ECount (ROk true 19) 4; ECount (ROk false 100) 6;
           ECount (RErr 33 0) 7; ECount (ROk true 15) 8])
   = [(Some (LMI 5), None); (Some (LMI 1), Some false); (Some (LMI 12), Some false); (Some (LMI 12), Some false);
@@ -161,9 +188,9 @@ Proof. vm_compute. eexists. eexists. repeat split. Qed.
 
 Example C09_history_nonvacuous :
   case_ok ex_mi SAlloc (observe true ex_mi (init (cfg ex_mi) SAlloc))
-    (trace true true ex_mi (init (cfg ex_mi) SAlloc) [EHb true; EEnable; q_mi (-1); EStrategy SCount; ECfgSync; ECount (RErr 33 0) 0;
+    (trace true true true ex_mi (init (cfg ex_mi) SAlloc) [EHb true; EEnable; q_mi (-1); EStrategy SCount; ECfgSync; ECount (RErr 33 0) 0;
                                       ECount (ROk false (-1)) 3; ECount (ROk true 9) 4]) = all_true
-  /\ List.length (trace true true ex_mi (init (cfg ex_mi) SAlloc) [EHb true; EEnable; q_mi (-1)]) = 3%nat.
+  /\ List.length (trace true true true ex_mi (init (cfg ex_mi) SAlloc) [EHb true; EEnable; q_mi (-1)]) = 3%nat.
 Proof. vm_compute. split; reflexivity. Qed.
 
 (* schema updates: the global limit lowered below the quota in force (8 > 4) is enforced at once, the server
@@ -171,14 +198,34 @@ Proof. vm_compute. split; reflexivity. Qed.
    while the global-count server is unavailable (fallback 18 -> 10) *)
 Example C09_schema_update_nonvacuous :
   map (fun p => o_lim (snd p))
-      (trace true true ex_mi (init (cfg ex_mi) SAlloc)
-         [EHb true; q_mi 8; ESchema 2 0 4 0; q_mi 8; q_mi 8; ESchema 2 0 20 0; q_mi 8])
+      (trace true true true ex_mi (init (cfg ex_mi) SAlloc)
+         [EHb true; q_mi 8; ESchema KMI SAlloc 2 0 4 0; q_mi 8; q_mi 8; ESchema KMI SAlloc 2 0 20 0; q_mi 8])
   = [Some (LMI 5); Some (LMI 8); Some (LMI 4); Some (LMI 4); Some (LMI 4); Some (LMI 4); Some (LMI 8)]
   /\ map (fun p => o_lim (snd p))
-      (trace true true ex_mi (init (cfg ex_mi) SCount)
-         [EHb true; ECfgSync; ECount (RErr 18 0) 1; ESchema 2 0 10 0; ECfgSync; ESchema 2 0 30 0; ECfgSync])
+      (trace true true true ex_mi (init (cfg ex_mi) SCount)
+         [EHb true; ECfgSync; ECount (RErr 18 0) 1; ESchema KMI SCount 2 0 10 0; ECfgSync; ESchema KMI SCount 2 0 30 0; ECfgSync])
   = [Some (LMI 5); Some (LMI 1); Some (LMI 18); Some (LMI 10); Some (LMI 10); Some (LMI 10); Some (LMI 18)]
-  /\ evs_ok ex_mi [ESchema 2 0 4 0; ESchema 2 0 20 0].
+  /\ evs_ok [ESchema KMI SAlloc 2 0 4 0; ESchema KMI SAlloc 2 0 20 0].
+Proof.
+  split; [vm_compute; reflexivity|]. split; [vm_compute; reflexivity|].
+  repeat constructor; unfold valid_cfg, two31; simpl; lia.
+Qed.
+
+(* the type changes while a quota of the old type is in force and the server keeps answering for the old
+   type; an answer with both members; the name is deleted and added again; hysteresis boundaries 4999 / 5000 ms *)
+Example C09_type_change_nonvacuous :
+  map (fun p => (o_sel (snd p), o_lim (snd p)))
+      (trace true true true ex_mi (init (cfg ex_mi) SAlloc)
+         [EHb true; q_mi 12; ESchema KTB SAlloc 1 2 3 4; q_mi 12;
+          EQuota {| idet := DBoth 12 2 9; istr := SAlloc |}; EDelete; q_tb 2 3; ESchema KMI SAlloc 5 0 8 0; q_mi 12])
+  = [(SelLocal, Some (LMI 5)); (SelRemote, Some (LMI 12)); (SelLocal, Some (LTB 1 2)); (SelLocal, Some (LTB 1 2));
+     (SelRemote, Some (LTB 2 4)); (SelDefault, Some LInf); (SelDefault, Some LInf); (SelLocal, Some (LMI 5));
+     (SelRemote, Some (LMI 8))]
+  /\ map (fun p => o_ready (snd p))
+      (trace true true true ex_mi (init (cfg ex_mi) SAlloc)
+         [EHb true; EHb false; EElapse 4999; EHb false; EElapse 1; EHb false; ELeader; EHb false; EElapse 5001; EHb true])
+  = [true; true; true; true; true; false; true; true; true; true]
+  /\ evs_ok [ESchema KTB SAlloc 1 2 3 4; ESchema KMI SAlloc 5 0 8 0].
 Proof.
   split; [vm_compute; reflexivity|]. split; [vm_compute; reflexivity|].
   repeat constructor; unfold valid_cfg, two31; simpl; lia.
